@@ -2,8 +2,8 @@
 # usage: seed_batch2.sh Cxx   -> confirms /tmp/wt2_Cxx/out_mutants/m{1,2,3} as Cxx-n{1,2,3} (second-round seeds), then removes the worktree
 P=$1
 for k in 1 2 3; do
-  if [ -f /tmp/wt2_$P/out_mutants/m$k.diff ]; then
-    python3 /verif/tools/seed_confirm.py $P-n$k $P /tmp/wt2_$P/out_mutants/m$k.diff /tmp/wt2_$P/out_mutants/m${k}_demo.py /tmp/wt2_$P/out_mutants/m${k}_notes.txt -n 6
+  if [ -f /tmp/wt${R:-2}_$P/out_mutants/m$k.diff ]; then
+    python3 /verif/tools/seed_confirm.py $P-${S:-n}$k $P /tmp/wt${R:-2}_$P/out_mutants/m$k.diff /tmp/wt${R:-2}_$P/out_mutants/m${k}_demo.py /tmp/wt${R:-2}_$P/out_mutants/m${k}_notes.txt -n 6
   fi
 done
-git -C /repo worktree remove --force /tmp/wt2_$P
+git -C /repo worktree remove --force /tmp/wt${R:-2}_$P
